@@ -79,10 +79,23 @@ class ManifestLoader:
             if not ret:
                 raise ManifestMismatch(relpath, verify_entry, diff)
 
-        with open_potentially_compressed_path(path, 'r',
-                                              encoding='utf8') as f:
-            m.load(f, self.verify_openpgp, self.openpgp_env)
-            st = os.fstat(f.fileno())
+        try:
+            with open_potentially_compressed_path(path, 'r',
+                                                  encoding='utf8') as f:
+                m.load(f, self.verify_openpgp, self.openpgp_env)
+                st = os.fstat(f.fileno())
+        except InvalidCompressedFileExceptions + (EOFError,) as exc:
+            # damaged or truncated compressed data
+            raise ManifestSyntaxError(
+                f'{relpath}: invalid compressed data: {exc}')
+        except OSError as exc:
+            # bz2 returns generic OSError without errno
+            # so non-null errno probably means something
+            # else happened
+            if exc.errno is not None:
+                raise
+            raise ManifestSyntaxError(
+                f'{relpath}: invalid compressed data: {exc}')
 
         return m, st
 
